@@ -41,6 +41,7 @@ def units(tier, seed):
         {"sid": "attrs", "family": "attrs", "size": 3 if q else 4, "donor": ("attrs", 3)},
         {"sid": "topmarks", "family": "topmarks", "size": 3 if q else 4, "donor": ("topmarks", 3)},
         {"sid": "basic", "family": "links", "size": 4 if q else 5, "donor": ("links", 3)},
+        {"sid": "strict_hb", "family": "strict", "size": 9 if q else 10, "donor": ("strict", 9)},
     ]
     extra = [
         {"sid": "table", "family": "table", "size": 10 if q else 12, "donor": ("table", 10)},
@@ -396,8 +397,15 @@ def build_menu(c, sc, node, pool_sl, u):
         except Exception:  # noqa: BLE001
             parsed = None
         return [html, parsed]
+    def dom_only():
+        from prosemirror.model import DOMSerializer
+
+        ser = DOMSerializer.from_schema(schema)
+        return [str(ser.serialize_fragment(node.content))] + [str(ser.serialize_node(node.child(i))) for i in range(node.child_count)]
     if c.id in ("basic", "list"):
         add({"op": "DOM serialise/parse"}, dom)
+    elif all(t.spec.get("toDOM") or t.is_text or t is schema.top_node_type for t in schema.nodes.values()):
+        add({"op": "DOM serialise"}, dom_only)
     return menu, shared
 
 
